@@ -7,13 +7,15 @@ From Coq Require Import ZArith QArith Qcanon List Bool.
 From JV Require Import Base.Num Gen.candle Gen.backtest Gen.simidx Spec.PathSpec Model.Match Model.FastMatch Proofs.FastProofs.
 Import ListNotations.
 
-(* (i) the candle the fast matcher uses for a minute inside a chunk (high/low stretched to the previous close) has exactly the
-   range of the gap-normalised candle the normal matcher uses, so the same orders are inside the minute *)
-Theorem C12_same_range : forall prev k : cndl, valid k ->
-  c_high (fix_jump QcNum prev k) = c_high (stretch prev k) /\ c_low (fix_jump QcNum prev k) = c_low (stretch prev k).
-Proof. exact same_range. Qed.
-Theorem C12_same_candidates : forall (prev k : cndl) x, valid k -> includes (fix_jump QcNum prev k) x = includes (stretch prev k) x.
-Proof. exact same_candidates. Qed.
+(* (i) the fast matcher walks a chunk along its path candles (every minute normalised to start at the previous close, on copies);
+   these are exactly the candles the normal simulator matches, minute by minute: the normalisation reads only the previous close
+   and keeps the close, so normalising along normalised or along raw predecessors is the same *)
+Theorem C12_path_candles_are_the_normal_simulators :
+  forall ks : list cndl, norm_chain None ks = step_candles None ks.
+Proof. intros ks. exact (path_candles_are_the_normal_simulators ks None None I). Qed.
+Theorem C12_normalisation_reads_only_the_previous_close :
+  forall p p' k : cndl, c_close p = c_close p' -> fix_jump QcNum p k = fix_jump QcNum p' k.
+Proof. exact fix_jump_close_only. Qed.
 
 (* (ii) the chunk length divides every route's timeframe (trading and data); then the fast simulator generates a higher-timeframe
    candle, and runs a route, exactly when the normal simulator does at the chunk's last minute, from exactly the same rows, and
@@ -58,8 +60,8 @@ Example C12_chunk_exists :
   end.
 Proof. vm_compute. repeat split; reflexivity. Qed.
 
-Print Assumptions C12_same_range.
-Print Assumptions C12_same_candidates.
+Print Assumptions C12_path_candles_are_the_normal_simulators.
+Print Assumptions C12_normalisation_reads_only_the_previous_close.
 Print Assumptions C12_step_divides_every_timeframe.
 Print Assumptions C12_windows_coincide.
 Print Assumptions C12_no_window_inside_chunk.
